@@ -31,6 +31,7 @@ CONSTANTS MaxObjs,      \* objects per graph
           KidsRoot,     \* max number of kids of object 1
           KidsRest,     \* max number of kids of the other objects
           Schemes,      \* attribute naming schemes used (subset of AllSchemes)
+          Homes,        \* where the protocol methods of an object's class are defined (subset of {"own", "inh"})
           CodeFixes     \* which deviations are repaired in the tree the model describes ({} = pinned tree)
 
 H == INSTANCE H_Reduce
@@ -42,6 +43,15 @@ AllFixes  == {"deepreg", "slotsnone", "falsystate", "nonestate", "emptytuple", "
 \* are b, c, ...): an ordinary name, 'extend' (the method construct_python_object_apply calls), a __dunder__ name, an
 \* underscore-private name, names of other container methods.
 AllSchemes == {"ord", "ext", "dun", "prv", "app", "upd"}
+\* WHERE the protocol methods are defined is part of the shape: h = "own" - on the class itself, h = "inh" - every one of
+\* them (__setstate__, __getstate__, __reduce__, __getnewargs__, __setattr__, __slots__, extend / __setitem__) on a base
+\* class, the object's class being an empty subclass.  Both protocols find them through the MRO - pickle with getattr,
+\* the code with hasattr(data, '__reduce_ex__'), hasattr(instance, '__setstate__'), hasattr(instance, '__dict__'),
+\* instance.extend - so nothing below depends on h: ReduceOf, HasSetstate, HasDict are functions of the shape alone.
+\* That is a statement about the code which the replay of both homes checks.  (Two classes do change with their home:
+\* an empty subclass of a __slots__-only class gains a __dict__, and copyreg.dispatch_table is keyed by the exact class;
+\* both protocols agree there and the rebuilt graph is the same.)
+Twinned == AllShapes \ {"list", "dict", "tuple", "set", "OD"}
 FirstName(n) == CASE n = "ext" -> "extend" [] n = "dun" -> "__tag__" [] n = "prv" -> "_p" [] n = "app" -> "append"
                   [] n = "upd" -> "update" [] OTHER -> "a"
 
@@ -82,7 +92,7 @@ AttrOrder == <<"__tag__", "_p", "a", "append", "b", "c", "d", "d_k0", "d_k1", "d
 XNames == <<"x0", "x1", "x2", "x3", "x4", "x5", "x6", "x7">>
 \* Python's sorted() order of every dict key that occurs (keys of dicts of the graph, and of the transient dicts the loader builds)
 KeyOrder == <<"__tag__", "_p", "a", "append", "args", "b", "c", "d", "dictitems", "e", "extend", "f", "g", "h", "items",
-              "k0", "k1", "k2", "k3", "k4", "k5", "k6", "k7", "listitems", "state", "update">>
+              "k0", "k1", "k2", "k3", "k4", "k5", "k6", "k7", "listitems", "p0", "p1", "p2", "p3", "p4", "p5", "p6", "p7", "state", "update">>
 LeafOrder == <<"b", "c", "e", "f", "i", "i0", "m", "n", "s", "s0", "z">>
 KeyIndex(k) == CHOOSE j \in DOMAIN Keys : Keys[j] = k
 
@@ -124,6 +134,8 @@ ReduceOf(o) ==
     [] o.s = "NA" -> Rd(TRUE, "NA", Atoms(o.p), DictOrNone(o), <<>>, <<>>)
     [] o.s = "NT" -> Rd(TRUE, "NT", Atoms(Pad2(o.p)), VNone, <<>>, <<>>)
     [] o.s = "R2" -> Rd(FALSE, "make_r2", Atoms(o.p), VNone, <<>>, <<>>)
+    \* copyreg.dispatch_table is keyed by the exact class: an empty subclass of CR is not in it and reduces by default
+    [] o.s = "CR" /\ o.h = "inh" -> Rd(TRUE, "CRi", <<>>, IF o.p = <<>> THEN VNone ELSE VD([j \in DOMAIN o.p |-> <<PNames[j], At(o.p[j])>>]), <<>>, <<>>)
     [] o.s = "CR" -> Rd(FALSE, "make_cr", Atoms(o.p), VNone, <<>>, <<>>)          \* through copyreg.dispatch_table
     [] o.s = "R3" -> Rd(FALSE, "R3", Atoms(o.p), VD(Attrs(o)), <<>>, <<>>)
     [] o.s = "RL" -> Rd(FALSE, "RL", <<>>, DictOrNone(o), Atoms(o.p), <<>>)
@@ -138,9 +150,9 @@ ReduceOf(o) ==
     [] OTHER -> Rd(FALSE, "?", <<>>, VNone, <<>>, <<>>)
 
 HasSetstate(lab) == lab \in {"GS", "GT", "GV", "GC", "GL"}
-HasDict(lab)     == lab \in {"P", "PA", "SD", "GS", "GT", "GV", "GC", "GL", "NA", "R2", "R3", "RL", "RD", "CR", "ML", "MD", "MS", "OD", "MO", "XS"}
+HasDict(lab)     == lab \in {"P", "PA", "SD", "GS", "GT", "GV", "GC", "GL", "NA", "R2", "R3", "RL", "RD", "CR", "CRi", "ML", "MD", "MS", "OD", "MO", "XS"}
 \* classes whose default reduction hands out the instance dictionary itself as the state (not a copy)
-OwnDictState(fn) == fn \in {"P", "PA", "NA", "ML", "MD", "MS", "XS"}
+OwnDictState(fn) == fn \in {"P", "PA", "CRi", "NA", "ML", "MD", "MS", "XS"}
 
 (***************************************************************************)
 (* Class semantics, shared by H and L (both protocols call the same        *)
@@ -172,7 +184,7 @@ SetDig(kinds) == "m" \o JoinKinds(LeafOrder, kinds)
 
 \* cls.__new__(cls, args...) when new, else fn(args...); args : Seq of views
 ClsNew(fn, new, args) ==
-  CASE fn \in {"P", "PA", "S", "SD", "GS", "GT", "GV", "GC", "GL", "ML", "MD"} /\ new -> Empty(fn)
+  CASE fn \in {"P", "PA", "CRi", "S", "SD", "GS", "GT", "GV", "GC", "GL", "ML", "MD"} /\ new -> Empty(fn)
     [] fn = "NA" /\ new -> [Empty("NA") EXCEPT !.pos = [j \in DOMAIN args |-> Kid("t", "", RVof(args[j]))]]
     [] fn = "NT" /\ new -> IF Len(args) # 2 THEN ERR("TypeError")
                            ELSE [Empty("NT") EXCEPT !.pos = [j \in DOMAIN args |-> Kid("t", "", RVof(args[j]))]]
@@ -224,7 +236,7 @@ SortBy(kids, order) ==
   LET present == SelectSeq(order, LAMBDA nm : \E j \in DOMAIN kids : kids[j].k = nm)
   IN  IF Len(present) # Len(kids) THEN Assert(FALSE, <<"name outside the order table", kids>>)
       ELSE [x \in DOMAIN present |-> kids[CHOOSE j \in DOMAIN kids : kids[j].k = present[x]]]
-PlainRec(rec) == rec.lab \in {"P", "PA"} \/ (rec.lab = "NA" /\ rec.pos = <<>>)
+PlainRec(rec) == rec.lab \in {"P", "PA", "CRi"} \/ (rec.lab = "NA" /\ rec.pos = <<>>)
 Canon(rec) ==
   LET soften(ks, b) == [j \in DOMAIN ks |-> [ks[j] EXCEPT !.soft = b]]
   IN [lab |-> rec.lab, dig |-> rec.dig,
@@ -665,8 +677,9 @@ Splits(s, m) ==
     [] OTHER        -> {<<np, 0>> : np \in 0 .. m}
 
 Objects(s, m, h) ==
-  UNION {{[o |-> [s |-> s, p |-> SubSeq(x.vs, 1, sp[1]), a |-> SubSeq(x.vs, sp[1] + 1, sp[1] + sp[2]), n |-> nm], hi |-> x.hi] :
-            x \in KidSeqs(sp[1] + sp[2], h, FALSE), nm \in (IF sp[2] = 0 THEN {"ord"} ELSE Schemes)} : sp \in Splits(s, m)}
+  UNION {{[o |-> [s |-> s, p |-> SubSeq(x.vs, 1, sp[1]), a |-> SubSeq(x.vs, sp[1] + 1, sp[1] + sp[2]), n |-> nm, h |-> hm], hi |-> x.hi] :
+            x \in KidSeqs(sp[1] + sp[2], h, FALSE), nm \in (IF sp[2] = 0 THEN {"ord"} ELSE Schemes),
+            hm \in (IF s \in Twinned THEN Homes ELSE {"own"})} : sp \in Splits(s, m)}
 \* set members are leaves, pairwise different
 SetOk(o) == o.s \in {"set", "MS"} => /\ \A j \in DOMAIN o.p : o.p[j].r = 0
                                      /\ \A j1, j2 \in DOMAIN o.p : j1 # j2 => o.p[j1] # o.p[j2]
